@@ -17,6 +17,11 @@ const MAP_EXITS: [&str; 16] = [
 ];
 
 fn cuts(len: usize, rng: &mut Rng, thorough: bool) -> Vec<usize> {
+    if crate::util::slow_lane() {
+        let mut v = vec![0, len / 2, len];
+        v.dedup();
+        return v;
+    }
     if len <= 24 || (thorough && len <= 64) {
         (0..=len).collect()
     } else {
@@ -51,7 +56,11 @@ fn map_exits<K: Elem, V: Elem>(c: &mut Ctx, spec: &Spec, rng: &mut Rng) {
     let len = ids.len();
     drop(probe);
     let bh = PlanBH::new(spec.plan, spec.salt);
+    let only_exit = if crate::util::slow_lane() { Some(rng.usize_below(MAP_EXITS.len())) } else { None };
     for (xi, exit) in MAP_EXITS.iter().enumerate() {
+        if only_exit.map_or(false, |o| o != xi) {
+            continue;
+        }
         let cut_list = if exit.ends_with("_cut") { cuts(len, rng, c.thorough()) } else { vec![0] };
         for cut in cut_list {
             let what = format!("HashMap<{},{}> [{}] exit {} cut {}", K::NAME, V::NAME, spec.describe(), exit, cut);
